@@ -505,3 +505,39 @@ func (e *Engine) assumeASCII(s sv) {
 }
 
 func f64bits(f float64) uint64 { return math.Float64bits(f) }
+
+// utf8Encode is string(r) for a symbolic integer r: Go's conversion yields the
+// UTF-8 encoding of the code point, "�" for surrogates and values outside
+// 0..0x10FFFF.  The length class is decided by forking (at most five paths, one
+// when the path condition already fixes it); the bytes are bit-vector terms.
+func (e *Engine) utf8Encode(s sv) []value {
+	tt := e.tt
+	r := s.t
+	w := r.S.Width()
+	if w < 32 {
+		if isSigned(s.k) {
+			r = tt.SignExt(32-w, r)
+		} else {
+			r = tt.ZeroExt(32-w, r)
+		}
+		w = 32
+	}
+	lt := func(v uint64) *Term { return tt.BVCmp("bvult", r, tt.BVConst(w, v)) }
+	b := func(t *Term) value { return e.fromTerm(t, types.Uint8) }
+	cont := func(hi, lo int) value { return b(tt.Concat(tt.BVConst(2, 2), tt.Extract(hi, lo, r))) }
+	if e.fork(lt(0x80)) {
+		return []value{b(tt.Extract(7, 0, r))}
+	}
+	if e.fork(lt(0x800)) {
+		return []value{b(tt.Concat(tt.BVConst(3, 6), tt.Extract(10, 6, r))), cont(5, 0)}
+	}
+	// negative values of a signed source are huge as unsigned: invalid as well
+	invalid := tt.Or(tt.Not(lt(0x110000)), tt.And(tt.Not(lt(0xD800)), lt(0xE000)))
+	if e.fork(invalid) {
+		return []value{uint8(0xEF), uint8(0xBF), uint8(0xBD)}
+	}
+	if e.fork(lt(0x10000)) {
+		return []value{b(tt.Concat(tt.BVConst(4, 14), tt.Extract(15, 12, r))), cont(11, 6), cont(5, 0)}
+	}
+	return []value{b(tt.Concat(tt.BVConst(5, 30), tt.Extract(20, 18, r))), cont(17, 12), cont(11, 6), cont(5, 0)}
+}
